@@ -259,8 +259,13 @@ class sequence_variables:
                 else:
                     half = count // 2
                     try:
-                        data['median-%s' %
-                             name] = (values[half] + values[half - 1]) // 2
+                        middle = values[half] + values[half - 1]
+                        if isinstance(middle, int):
+                            # integer data keeps an integer median
+                            middle = middle // 2
+                        else:
+                            middle = middle / 2
+                        data['median-%s' % name] = middle
                     except Exception:
                         try:
                             data['median-%s' %
